@@ -20,15 +20,17 @@ import (
 )
 
 type crossCase struct {
-	X       fg.Flow           `json:"referenced_flow"`
-	A       fg.Flow           `json:"host_flow"`
+	X fg.Flow `json:"referenced_flow"`
+	A fg.Flow `json:"host_flow"`
 	// Lib (optional): a third flow whose processor K0 the host uses through the cross-flow processor reference
 	// `Lib.K0`, next to a processor of its own that has the same key K0 and another parameter
-	Lib *fg.Flow `json:"library_flow,omitempty"`
+	Lib     *fg.Flow          `json:"library_flow,omitempty"`
 	ReqHdr  map[string]string `json:"request_headers"`
 	RespHdr map[string]string `json:"response_headers"`
 	// Fan: number of further connections that leave "flow Guard at end" in the host's request direction
 	Fan int `json:"fan_out_behind_the_reference,omitempty"`
+	// Shared: the host's two directions run over the same processor keys
+	Shared bool `json:"same_processors_in_both_directions,omitempty"`
 }
 
 func pEnd(key, cond string) fg.End { return fg.End{Proc: key, Cond: cond} }
@@ -107,7 +109,17 @@ func genCross() *rapid.Generator[crossCase] {
 		// host flow A
 		c.A = fg.Flow{Name: "Host", URL: "h.com/a"}
 		ak := keysOf("A", rapid.IntRange(1, 2).Draw(t, "na"), &c.A)
-		sk := keysOf("S", rapid.IntRange(1, 2).Draw(t, "ns"), &c.A)
+		var sk []string
+		if rapid.IntRange(0, 2).Draw(t, "same-processors-both-ways") == 0 {
+			// the host's response direction runs over the same processors as its request direction (one processor
+			// key with connections of its own in each direction): the two graphs stay apart
+			// (in the same order: run in the opposite order, the two chains together would be a circle, which a
+			// loader that looked at both directions at once might refuse)
+			sk = append([]string(nil), ak...)
+			c.Shared = true
+		} else {
+			sk = keysOf("S", rapid.IntRange(1, 2).Draw(t, "ns"), &c.A)
+		}
 		aExits := []fg.End{fg.StreamEnd()}
 		var ga *fg.End
 		if rapid.IntRange(0, 3).Draw(t, "ga") == 0 {
@@ -304,7 +316,7 @@ func runCross(r *ev.Recorder, rec *engine.Recorder, c crossCase) (nontrivial boo
 	}
 	s, e := dir.Load()
 	if e != nil {
-		return false, infraErr{fmt.Sprintf("generated configuration was rejected: %v\n%s\n%s", e, c.X.YAML(), c.A.YAML())}
+		return false, refusedErr{fmt.Sprintf("generated configuration was rejected: %v\n%s\n%s", e, c.X.YAML(), c.A.YAML())}
 	}
 	rec.Take()
 	hdr := map[string]string{"host": "h.com"}
@@ -378,11 +390,21 @@ func TestCrossFlowWalk(t *testing.T) {
 	r := ev.New(t, "C04")
 	rec := engine.Capture(256)
 	defer rec.Stop()
+	cases, refused, lastRefusal := 0, 0, ""
 	rapid.Check(t, func(t *rapid.T) {
 		c := genCross().Draw(t, "case")
+		cases++
 		r.Case()
 		nt, err := runCross(r, rec, c)
 		if err != nil {
+			if rf, refusedCase := err.(refusedErr); refusedCase {
+				// the generator builds configurations the loader accepts (it does, on the pinned tree, every time):
+				// a refusal is counted and the search goes on; the unit is inconclusive if refusals are not rare
+				refused++
+				lastRefusal = rf.msg
+				r.Class("generated configuration refused by the loader (case not judged)")
+				return
+			}
 			if _, infra := err.(infraErr); infra {
 				fmt.Println(err.Error())
 				t.Fatalf("%v", err)
@@ -393,4 +415,8 @@ func TestCrossFlowWalk(t *testing.T) {
 			r.NonTrivial(ev.JSON(c), func() any { return c })
 		}
 	})
+	if !t.Failed() && refused*10 > cases {
+		fmt.Printf("VERIF-INFRA: %d of %d generated configurations were refused by the loader, e.g. %s\n", refused, cases, lastRefusal)
+		t.Fatalf("infrastructure")
+	}
 }
